@@ -126,7 +126,7 @@ def run(ctx, case):
                 c["args"]["ig"] = c["args"].pop("iq")
                 if isinstance(c["args"]["ig"], dict) and "iq" in c["args"]["ig"]:
                     c["args"]["ig"]["ig"] = c["args"]["ig"].pop("iq")
-        ops, used = c16.plan_history(random.Random(case["vseed"] + 1), spec, 0.6)
+        ops, used = c16.plan_history(random.Random(case["vseed"] + 1), spec, 0.6, first_scratch=case["vseed"] % 4 == 1)
         _, start, g0, r0 = ops[0]
         a = ns.System(spec.get("name", "sys"), hist.make(ns, start), group=g0, rail=r0)
         for op in ops[1:]:
